@@ -413,6 +413,8 @@ class ClientVisitor:
             writer.write_line(
                 f"self._{module_name} = {module_name} if {module_name} is not None else {mock_class_name}()"
             )
+        if not tag_tuples:
+            writer.write_line("pass")  # No tag clients (spec without operations): keep the body non-empty
         writer.dedent()
         writer.write_line("")
 
